@@ -16,6 +16,10 @@ CLAIMED = {
    text='For each seeded coordinate-sorted fragment sequence (<=60 NLA fragments, duplicates arriving after unrelated molecules became ejectable, fragment+read length <= cache_size/2) EVERY check_eject_every in {None,0..n} x both pooling methods is executed on the real MoleculeIterator; oracle: partition equals the never-eject partition and the ground-truth classes, every fragment yielded exactly once, no molecule emitted while a later fragment of its group is still to arrive. Schedules exhaustive per input; inputs sampled.',
    note='Trusts the arrival-order model of a coordinate-sorted BAM (tuples sorted by the later mate start) and the cache_size/2 precondition argument in DESIGN.md.',
    tech='deterministic simulation: exhaustive ejection-schedule enumeration per seeded workload against ground truth and a schedule-free reference run; ddmin replay files'),
+ 'C12': dict(engine='bins', cat='exploration', design='5 C12',
+   text='Seeded tagged BAMs (sites forced onto bin/job boundaries, sites owned by another job than the read start, filtered records) are counted through the real generate_commands/count_fragments_binned/obtain_counts for every bins_per_job in 1..10 plus whole-contig jobs, each under a seeded SimPool completion order and pool width; the returned dict must equal a one-scan reference model (hence be identical across splits and schedules, total = number of counting records). Sampled inputs and orders: evidence, not proof.',
+   note='Trusts SimPool (atomic job bodies, pickled args/results) and the reference model; sites stay within max_fragment_size of their read (documented look-around contract).',
+   tech='deterministic simulation: seeded job-partition x worker-completion-order exploration under a simulated process pool, checked against an executable reference model'),
 }
 NA = {
  'C02': 'Pure function of (strategy layout, read pair): fixed slices of two strings; no stream state, schedule, clock, fault or history for a simulator to choose.',
